@@ -93,8 +93,10 @@ def collect_pairs_power(ps, conds: Conditions):
     for k, v in res.items():
         if v != zero_for(v):
             res_list.append((k, v))
-    
-    return tuple(sorted(res_list, key=lambda p: p[0]))
+
+    # order by base and then by power, so that the result does not depend on the order of the input
+    return tuple(sorted(res_list, key=functools.cmp_to_key(
+        lambda p, q: -1 if (p[0] < q[0] or (p[0] == q[0] and p[1] < q[1])) else (0 if p == q else 1))))
 
 def reduce_power(n, e):
     """Reduce n ^ e to normal form.
